@@ -4,3 +4,5 @@ import LicenseExpr.Props.C04
 #print axioms LE.C04_whole_words
 #print axioms LE.C04_operator_whole_word
 #print axioms LE.C04_longest
+#print axioms LE.ownedW_spec
+#print axioms LE.C04_alone
